@@ -37,7 +37,7 @@ def build_case(cid, rng, dynamic, force_async=False, no_send=False, probes=False
     want_async = force_async or rng.random() < 0.45
     # async_trait is needed for dynamic selection and may also be used with static selection
     with_at = want_async and (dynamic or (not no_send and rng.random() < 0.3))
-    t = tg.random_trait(rng, "Tr", dyn_safe=True, allow_async=want_async, with_async_trait=with_at, allow_generic_trait=False)
+    t = tg.random_trait(rng, "Tr", dyn_safe=True, allow_async=want_async, with_async_trait=with_at, allow_generic_trait=False, allow_ghost=True)
     t.supers = [s for s in t.supers if "Sized" not in s]
     t.const_pos = None
     if not want_async:
@@ -117,6 +117,9 @@ def build_case(cid, rng, dynamic, force_async=False, no_send=False, probes=False
                 mm.pre = "let __rc = ::std::rc::Rc::new(1u8); ::vrt::yield_once().await; let _ = *__rc;"
             nested_by_target[(tname, m.name)] = [x[1] for x in mm.nested]
             L.append("    " + impl_fn(mm, "%s::%s::%s" % (cid, tname, m.name), form, bounds, rng.choice(["", "pub ", "pub(crate) "])))
+        for _pos, g in t.ghosts:
+            # the configured-out methods of the trait, configured out in the block as well
+            L.append("    " + tg.GHOST_IMPL_FNS[tg.GHOSTS.index(g)])
         L.append("}")
     # apps
     apps = []
